@@ -86,6 +86,25 @@ Theorem C17_v2_indices_distinct : forall h (ring : list (list N)),
 Proof. exact init_idx_nodup. Qed.
 Print Assumptions C17_v2_indices_distinct.
 
+(* (3'') the ring index is (h + i + j) mod n for EVERY hash value h — in particular when h + i + j >= 2^32
+   (namespaces whose murmur3 hash is next to 2^32): the Go code widens the uint32 hash to a 64-bit int before
+   adding, so nothing wraps. Consts.v records the Go type of selectIndex (read from the source with go/ast);
+   an index computed in uint32 would make v1_index_wrap = 2^32 and break these proofs *)
+Theorem C17_index_arithmetic_no_wrap : v1_index_wrap = 0%N /\ v2_index_wrap = 0%N.
+Proof. exact index_no_wrap. Qed.
+Print Assumptions C17_index_arithmetic_no_wrap.
+
+Theorem C17_v1_ring_index : forall h p r (ring : list (list N)), ring <> [] ->
+  fill_v1 h p r ring =
+  Ok (map (fun i => map (fun j => nth ((N.to_nat h + i + j) mod length ring) ring []) (seq 0 r)) (seq 0 p)).
+Proof. exact fill_v1_spec. Qed.
+Print Assumptions C17_v1_ring_index.
+
+Theorem C17_v2_name_index : forall h n (ring : list (list N)) i,
+  map nl_idx (init_loads h n i ring) = map (fun j => ((i + N.of_nat j) + h) mod n)%N (seq 0 (length ring)).
+Proof. exact init_idx. Qed.
+Print Assumptions C17_v2_name_index.
+
 (* (4) ring algorithm, nodes evenly spread over at least r data centres: no two replicas of a
    partition share a data centre *)
 Theorem C17_v1_dc_spread : forall ver ns p r olds nodes k l,
@@ -236,6 +255,13 @@ Qed.
    input on which the code used to panic (DESIGN.md L1, fixed in /repo 8ac1883) — now yields a layout that
    reuses the surplus member; the Panic outcome stays reachable outside the hypotheses (more old lists than
    partitions: partitionNodes[pid] out of range in moveIfUnbalanced) *)
+(* "test106933949" hashes to 2^32 - 5: the ring positions run through the 2^32 boundary without a jump *)
+Example C17_ex_boundary_hash :
+  murmur3_32 [116;101;115;116;49;48;54;57;51;51;57;52;57] = 4294967291 /\
+  fill_v1 4294967291 6 3 [[110;48];[110;49];[110;50]] =
+  Ok [[[110;50];[110;48];[110;49]]; [[110;48];[110;49];[110;50]]; [[110;49];[110;50];[110;48]];
+      [[110;50];[110;48];[110;49]]; [[110;48];[110;49];[110;50]]; [[110;49];[110;50];[110;48]]].
+Proof. split; vm_compute; reflexivity. Qed.
 Example C17_ex_refuse : rebalance balance_v2_str [110;115] 4 7 [] ex_nodes = Refuse.
 Proof. vm_compute. reflexivity. Qed.
 Example C17_ex_overlong_old_list :
